@@ -1,4 +1,5 @@
 import I2N.Lemmas.TravStates
+import I2N.Lemmas.TravStatesRm
 import I2N.Model.TravMon
 /-!
 # C01 — Every test starts only with its required object states available
@@ -412,6 +413,292 @@ theorem f10_swarm_scope_disabled :
     mayUse exSt10 2 1 0 = false ∧
     (sharedResults exSt10 (resume exSt10 exSt10_2 1 exNoOut 100).1 1).all (fun r => r.status == "PASS") = true :=
   ⟨by decide +kernel, runSched_reachS exSt10 3 [] [] 100 (by decide) _ (by decide +kernel) _ ReachS.init,
+    by decide +kernel⟩
+
+/-! ## the semantic core WITH state removal on pre-parsed graphs: `start_has_states_removal_partial`
+
+`NoRemoval` is dropped.  Common hypotheses (all decidable): `Clean.WellFormed g ncls` (the hypotheses of C05's run-level
+theorem: edges recorded at both ends, one copy per class and worker, flat root without parents, registers for every
+class, …), `SemHypR g` = `SemHyp g` with `NoRemoval` replaced by `NoCopyBack` (`pool_filter` ∈ {reuse, block}: backing
+out never copies states from the shared pool into the own one); nothing hidden initially (`ReachS … []`).
+
+Invariant (`Lemmas/TravStatesRm.lean`), inductive without further hypotheses: `SemR` = `Prov` ∧ `FinSrcR` ∧ `FinRes` — the
+set states of a traversed parsed copy are sourced, OR a removable copy of its class is cleanup-ready for its owner
+(`reverse_node` is only reached on a cleanup-ready node, and `droppedCleanup` registers only grow); the class of a
+traversed stateless copy has a result.  At the start of a dependant `n` the second alternative has to be refuted:
+
+* `start_has_states_removal_partial`: `RemovableSingle` (a class one of whose set states has an `f…` unset mode has ONE
+  parsed copy — in particular every graph with a single worker, `start_has_states_removal_single_worker`).  The copy is
+  then the starting worker's own one, and C05's invariant `CInv` on the state the step ends in says that the worker, which
+  awaits the test on `n`, has not dropped `n` — but a cleanup-ready parent has.
+* `start_has_states_removal_symmetric_partial`: `SymCopies` (the copies of a removable class have dependants of the
+  same classes) and `MaxTriesOne` (no retries), any number of copies.  The owner of the cleanup-ready copy has dropped,
+  hence traversed, its copy of the class of `n`; but without retries `n` is only run when its class has no result
+  (stateless) or no traversed copy (stateful).
+
+Neither can simply be dropped: `removed_state_stale_location` (two copies, the dependant parsed for one worker only). -/
+
+/-- With removal, one copy per removable class: whenever a `resume` step (positive fuel) of a worker `w` of the run emits
+a `start` event on a pre-parsed graph, it is the start of the test proper of a node `n` that `w` owns, told the locations
+`locs` = the `get_location` entries of `n` in the state `sd` in which the start was decided, and every state `vs` that `n`
+gets through a setup edge from a parsed parent relevant to `w` is — in `sd`, i.e. not removed — in `w`'s own pool, or in
+the shared pool, or in the pool of a worker `v` of the run whose location is contained in the entry of `vs`'s vm in
+`locs` and which `w` may use, or the parent's class has a result that did not pass.
+
+Partial w.r.t. the full C01 statement in the hypotheses of `start_has_states_partial` (minus `NoRemoval`) and in:
+pre-parsed graph, `NoCopyBack`, `RemovableSingle`. -/
+theorem start_has_states_removal_partial (g : Graph) {ncls : Nat} (hW : Clean.WellFormed g ncls) (hy : SemHypR g)
+    (hRS : RemovableSingle g)
+    (hN : NamesInj g) (hP : PreNamesFresh g) {store : Store} (hI : InitShared store) {s : State}
+    (hr : ReachS g ncls store [] s) (w : Nat) (hw : w < g.workers.length) (out : Outcome) (fuel : Nat) (hfuel : 0 < fuel)
+    (wid cname uid : String) (locs : List (String × String)) (k : Nat)
+    (he : Event.start wid cname uid locs k ∈ (resume g s w out fuel).2) :
+    ∃ n sd, cname = clsName g n .plain ∧ locs = (sd.nd n).getLoc ∧ n < g.nodes.length ∧ (g.node n).owner = some w ∧
+      Trv g [] sd ∧
+      ∀ e ∈ (g.node n).setup, (g.node e.1).flat = false → relevant g w e.1 = true →
+        ∀ vs ∈ (g.node n).gets, vs.1 ∈ e.2 →
+          vs ∈ storeGet sd.store (g.worker w).id ∨ vs ∈ storeGet sd.store "shared" ∨
+          (∃ v, v < g.workers.length ∧ vs ∈ storeGet sd.store (g.worker v).id ∧ HasLoc locs vs.1 (workerLoc g v) ∧
+            mayUse g n w v = true) ∨
+          (∃ r ∈ sharedResults g sd e.1, r.status ≠ "PASS") := by
+  have hwf := hW.1
+  have hO : OwnerNames g := ownerNamesB_sound hW.2.1
+  have H := hW.hyp
+  have hroot := H.top.1
+  have sc : SemCtxR g store := ⟨hy, hO, hW.2.2.1, hI⟩
+  have hgw := GraphWF.of_bool hwf
+  obtain ⟨_, hev⟩ := resume_semR g hgw hroot sc s w out fuel (hr.reachR.basic hwf) (hr.reachR.uids hwf hN hP)
+    (hr.reachH.trv hgw hroot hO.uniq) (hr.semR hwf hroot sc hN hP)
+  rcases hev _ he with hns | hst
+  · exact absurd rfl (hns wid cname uid locs k)
+  obtain ⟨n, sd, h1, h2, hn, hidn, hfl, td, _, hav, _, hreg, hwl, hpc⟩ := hst wid cname uid locs k rfl
+  -- C05's invariant on the state the step ends in: `w` awaits the test on `n` and has not dropped `n`
+  have ci := (hr.reachC.cinv H hW.2.2.2.2.2.2.1).step H w out fuel hw hfuel
+  obtain ⟨dir, uid', tag, hpc'⟩ := hpc (by rw [← hwl, ci.wl]; exact hw)
+  have hnd := ci.not_dropped_in_flight w n .plain dir uid' tag 0 hpc'
+  refine ⟨n, sd, h1, h2, hn, (hO w n hn hfl).mp hidn, td, fun e hemem hfp hrel vs hvs hvm => ?_⟩
+  rcases hav e hemem hfp hrel vs hvs hvm with h | ⟨v, hvl, hv, hl⟩ | h | ⟨i, u, hil, hfi, hic, hio, hrem, hcr⟩
+  · exact Or.inr (Or.inl h)
+  · exact Or.inr (Or.inr (Or.inl ⟨v, hvl, hv, by rw [h2]; exact hl, mayUse_full hy.fullScope hn hfl w v⟩))
+  · exact Or.inr (Or.inr (Or.inr h))
+  · -- the removable copy is `w`'s own copy of the parent; it is cleanup-ready for `w`: then `w` has dropped `n`
+    exfalso
+    have hpl : e.1 < g.nodes.length := hgw.setup_lt n e hemem
+    have hie : i = e.1 := hRS i hil e.1 hpl hfi hfp hrem hic
+    rw [hie] at hio hcr
+    have hou : (g.node e.1).owner = some w := (hO w e.1 hpl hfp).mp (relevant_nonflat hrel hfp)
+    rw [hou] at hio
+    cases hio
+    have hsym : n ∈ (g.node e.1).cleanup.map (·.1) := (H.sym e.1 hpl n hn).mp (List.mem_map.mpr ⟨e, hemem, rfl⟩)
+    obtain ⟨q, hq, hqn⟩ := List.mem_map.mp hsym
+    have := (cleanup_ready_iff g sd e.1 w).mp hcr q hq (by rw [hqn]; exact relevant_of_idIn hidn)
+    rw [hqn] at this
+    exact hnd ⟨(g.node e.1).cls, by rw [hreg]; exact this⟩
+
+/-- (1) The single-worker case: with ONE worker no hypothesis on the removal policies is needed beyond `NoCopyBack`
+(the worker's own removals never precede its own dependants' starts) — `RemovableSingle` follows from one copy per class
+and worker (`CopyUniq`, part of `WellFormed`) and from every parsed node having an owner (`ParsedOwned`).  Every state
+a started test gets from a parsed parent is then in the worker's own pool, in the shared pool, or the parent's class
+has a result that did not pass. -/
+theorem start_has_states_removal_single_worker (g : Graph) {ncls : Nat} (hW : Clean.WellFormed g ncls)
+    (h1 : g.workers.length = 1) (hPO : ParsedOwned g) (hy : SemHypR g)
+    (hN : NamesInj g) (hP : PreNamesFresh g) {store : Store} (hI : InitShared store) {s : State}
+    (hr : ReachS g ncls store [] s) (out : Outcome) (fuel : Nat) (hfuel : 0 < fuel)
+    (wid cname uid : String) (locs : List (String × String)) (k : Nat)
+    (he : Event.start wid cname uid locs k ∈ (resume g s 0 out fuel).2) :
+    ∃ n sd, cname = clsName g n .plain ∧ locs = (sd.nd n).getLoc ∧ n < g.nodes.length ∧ (g.node n).owner = some 0 ∧
+      Trv g [] sd ∧
+      ∀ e ∈ (g.node n).setup, (g.node e.1).flat = false → relevant g 0 e.1 = true →
+        ∀ vs ∈ (g.node n).gets, vs.1 ∈ e.2 →
+          vs ∈ storeGet sd.store (g.worker 0).id ∨ vs ∈ storeGet sd.store "shared" ∨
+          (∃ r ∈ sharedResults g sd e.1, r.status ≠ "PASS") := by
+  obtain ⟨n, sd, a1, a2, a3, a4, a5, hav⟩ := start_has_states_removal_partial g hW hy
+    (removableSingle_of_one_worker h1 hy.ownersReal hPO hW.2.2.2.2.1)
+    hN hP hI hr 0 (by omega) out fuel hfuel wid cname uid locs k he
+  refine ⟨n, sd, a1, a2, a3, a4, a5, fun e hemem hfp hrel vs hvs hvm => ?_⟩
+  rcases hav e hemem hfp hrel vs hvs hvm with h | h | ⟨v, hvl, hv, _, _⟩ | h
+  · exact Or.inl h
+  · exact Or.inr (Or.inl h)
+  · have hv0 : v = 0 := by omega
+    subst hv0; exact Or.inl hv
+  · exact Or.inr (Or.inr h)
+
+/-- (2) Several copies of a removable class: with `SymCopies` (for every dependant of a copy of a removable class that the
+copy's owner cares for, every removable copy of the class has a dependant of the same class that ITS owner cares for) and
+`MaxTriesOne` (no retries) the same conclusion holds for every step of every worker — whoever removed the state had
+dropped, hence traversed, its own copy of the dependant's class, and a class with a traversed copy (stateful) or a result
+(stateless) is never run again without retries.  No hypothesis on the scopes of the workers. -/
+theorem start_has_states_removal_symmetric_partial (g : Graph) {ncls : Nat} (hW : Clean.WellFormed g ncls)
+    (hy : SemHypR g) (hSym : SymCopies g) (hMT : MaxTriesOne g)
+    (hN : NamesInj g) (hP : PreNamesFresh g) {store : Store} (hI : InitShared store) {s : State}
+    (hr : ReachS g ncls store [] s) (w : Nat) (out : Outcome) (fuel : Nat)
+    (wid cname uid : String) (locs : List (String × String)) (k : Nat)
+    (he : Event.start wid cname uid locs k ∈ (resume g s w out fuel).2) :
+    ∃ n sd, cname = clsName g n .plain ∧ locs = (sd.nd n).getLoc ∧ n < g.nodes.length ∧ (g.node n).owner = some w ∧
+      Trv g [] sd ∧
+      ∀ e ∈ (g.node n).setup, (g.node e.1).flat = false → relevant g w e.1 = true →
+        ∀ vs ∈ (g.node n).gets, vs.1 ∈ e.2 →
+          vs ∈ storeGet sd.store (g.worker w).id ∨ vs ∈ storeGet sd.store "shared" ∨
+          (∃ v, v < g.workers.length ∧ vs ∈ storeGet sd.store (g.worker v).id ∧ HasLoc locs vs.1 (workerLoc g v) ∧
+            mayUse g n w v = true) ∨
+          (∃ r ∈ sharedResults g sd e.1, r.status ≠ "PASS") := by
+  have hwf := hW.1
+  have hO : OwnerNames g := ownerNamesB_sound hW.2.1
+  have hF : FlatClass g := hW.2.2.1
+  have H := hW.hyp
+  have hroot := H.top.1
+  have sc : SemCtxR g store := ⟨hy, hO, hF, hI⟩
+  have hgw := GraphWF.of_bool hwf
+  obtain ⟨_, hev⟩ := resume_semR g hgw hroot sc s w out fuel (hr.reachR.basic hwf) (hr.reachR.uids hwf hN hP)
+    (hr.reachH.trv hgw hroot hO.uniq) (hr.semR hwf hroot sc hN hP)
+  rcases hev _ he with hns | hst
+  · exact absurd rfl (hns wid cname uid locs k)
+  obtain ⟨n, sd, h1, h2, hn, hidn, hfl, td, jd, hav, hwhy, _, _, _⟩ := hst wid cname uid locs k rfl
+  obtain ⟨w1, w2⟩ := hwhy (hMT n hn)
+  refine ⟨n, sd, h1, h2, hn, (hO w n hn hfl).mp hidn, td, fun e hemem hfp hrel vs hvs hvm => ?_⟩
+  rcases hav e hemem hfp hrel vs hvs hvm with h | ⟨v, hvl, hv, hl⟩ | h | ⟨i, u, hil, hfi, hic, hio, hrem, hcr⟩
+  · exact Or.inr (Or.inl h)
+  · exact Or.inr (Or.inr (Or.inl ⟨v, hvl, hv, by rw [h2]; exact hl, mayUse_full hy.fullScope hn hfl w v⟩))
+  · exact Or.inr (Or.inr (Or.inr h))
+  · -- a removable copy `i` of the parent's class is cleanup-ready for its owner `u`: `u` has traversed its copy `x` of
+    -- the class of `n`, so `n` would not have been run
+    exfalso
+    have hpl : e.1 < g.nodes.length := hgw.setup_lt n e hemem
+    have hoe : (g.node e.1).owner = some w := (hO w e.1 hpl hfp).mp (relevant_nonflat hrel hfp)
+    have hsym : n ∈ (g.node e.1).cleanup.map (·.1) := (H.sym e.1 hpl n hn).mp (List.mem_map.mpr ⟨e, hemem, rfl⟩)
+    obtain ⟨q, hq, hqn⟩ := List.mem_map.mp hsym
+    obtain ⟨c', hc'mem, hc'cls, hc'rel⟩ := hSym e.1 hpl i hil hfp hfi hic.symm hrem w (hy.ownersReal.lt hpl hoe) u
+      (hy.ownersReal.lt hil hio) hoe hio q hq (by rw [hqn]; exact relevant_of_idIn hidn)
+    have hdr := (cleanup_ready_iff g sd i u).mp hcr c' hc'mem hc'rel
+    obtain ⟨x, hxl, hxc, _, hxf⟩ := td.dropC _ _ u hdr
+    have hxn : (g.node x).cls = (g.node n).cls := by rw [hxc, hc'cls, hqn]
+    have hflx : (g.node x).flat = false := by rw [hF x hxl n hn hxn]; exact hfl
+    have hfx := hxf hflx
+    cases hs : (g.node n).sets with
+    | nil =>
+      have hsx : (g.node x).sets = [] := by rw [hy.setsClass x hxl n hn hxn]; exact hs
+      obtain ⟨r, hr'⟩ := jd.res x hxl hflx (by rw [hfx]; rfl) hsx
+      have := sharedResults_class g sd x n hxl hn hflx hfl hxn r hr'
+      rw [w1 hs] at this
+      cases this
+    | cons a l =>
+      have := w2 (by rw [hs]; exact List.cons_ne_nil a l) x ((mem_copies_iff g n x hn hfl).mpr ⟨hxl, hxn⟩)
+      rw [hfx] at this
+      cases this
+
+/-! ### non-vacuity (instances `exRm1`, `exRm2`, `exRmSym` of `Lemmas/TravStatesRm.lean`) -/
+
+theorem exRm1_hyps : Clean.WellFormed exRm1 3 ∧ exRm1.workers.length = 1 ∧ ParsedOwned exRm1 ∧ SemHypR exRm1 ∧
+    NamesInj exRm1 ∧ PreNamesFresh exRm1 ∧ ¬ NoRemoval exRm1 :=
+  ⟨by decide +kernel, by decide +kernel, by decide +kernel,
+    ⟨by decide +kernel, by decide +kernel, by decide +kernel, by decide +kernel, by decide +kernel, by decide +kernel,
+      by decide +kernel⟩,
+    namesInjB_sound (by decide +kernel), preFreshB_sound (by decide +kernel), by decide +kernel⟩
+
+example : ReachS exRm1 3 [] [] exRm1_2 :=
+  runSched_reachS exRm1 3 [] [] 100 (by decide) _ (by decide +kernel) _ ReachS.init
+
+set_option maxRecDepth 100000 in
+/-- one worker, `a` sets `vm1/a` with the removal policy `fi`: when `a` has passed, `b` is started with the state in
+the worker's own pool; when `b` has passed, `b` is dropped, `a` is reversed and only then the state is removed -/
+example : Event.start "net1" "1" "2a1" [("vm1", ":/pool/shared net1:/pool/swarm")] 1 ∈ (resume exRm1 exRm1_1 0 exPass 100).2 ∧
+    ("vm1", "a") ∈ storeGet (resume exRm1 exRm1_1 0 exPass 100).1.store "net1" ∧
+    Event.door "net1" "unset" [("vm1", "a")] ["own"] true ∈ (resume exRm1 exRm1_2 0 exPass 100).2 ∧
+    ("vm1", "a") ∉ storeGet (resume exRm1 exRm1_2 0 exPass 100).1.store "net1" := by
+  decide +kernel
+
+example := start_has_states_removal_single_worker exRm1 exRm1_hyps.1 exRm1_hyps.2.1 exRm1_hyps.2.2.1 exRm1_hyps.2.2.2.1
+  exRm1_hyps.2.2.2.2.1 exRm1_hyps.2.2.2.2.2.1 (by decide : InitShared ([] : Store))
+  (runSched_reachS exRm1 3 [] [] 100 (by decide) [(0, exNoOut)] (by decide +kernel) _ ReachS.init) exPass 100 (by decide)
+
+/-- two workers in one scope, the removable class parsed for one of them only: the hypotheses of
+`start_has_states_removal_partial` are satisfiable with `g.workers.length = 2` -/
+theorem exRm2_hyps : Clean.WellFormed exRm2 4 ∧ SemHypR exRm2 ∧ RemovableSingle exRm2 ∧ NamesInj exRm2 ∧
+    PreNamesFresh exRm2 ∧ exRm2.workers.length = 2 ∧ Clean.OneScope exRm2 ∧ ¬ NoRemoval exRm2 :=
+  ⟨by decide +kernel,
+    ⟨by decide +kernel, by decide +kernel, by decide +kernel, by decide +kernel, by decide +kernel, by decide +kernel,
+      by decide +kernel⟩,
+    by decide +kernel, namesInjB_sound (by decide +kernel), preFreshB_sound (by decide +kernel), by decide +kernel,
+    by decide +kernel, by decide +kernel⟩
+
+example := start_has_states_removal_partial exRm2 exRm2_hyps.1 exRm2_hyps.2.1 exRm2_hyps.2.2.1 exRm2_hyps.2.2.2.1
+  exRm2_hyps.2.2.2.2.1 (by decide : InitShared ([] : Store))
+  (runSched_reachS exRm2 4 [] [] 100 (by decide) [(1, exNoOut), (0, exNoOut)] (by decide +kernel) _ ReachS.init)
+  1 (by decide) exPass 100 (by decide)
+
+/-- two workers, every class parsed for both (two copies of the removable class): the hypotheses of
+`start_has_states_removal_symmetric_partial` hold, `RemovableSingle` does not -/
+theorem exRmSym_hyps : Clean.WellFormed exRmSym 4 ∧ SemHypR exRmSym ∧ SymCopies exRmSym ∧ MaxTriesOne exRmSym ∧
+    NamesInj exRmSym ∧ PreNamesFresh exRmSym ∧ ¬ RemovableSingle exRmSym ∧ ¬ NoRemoval exRmSym :=
+  ⟨by decide +kernel,
+    ⟨by decide +kernel, by decide +kernel, by decide +kernel, by decide +kernel, by decide +kernel, by decide +kernel,
+      by decide +kernel⟩,
+    by decide +kernel, by decide +kernel, namesInjB_sound (by decide +kernel), preFreshB_sound (by decide +kernel),
+    by decide +kernel, by decide +kernel⟩
+
+set_option maxRecDepth 100000 in
+/-- net1 ran `a` (PASS) and is running `b`; net2 skips its copy of `a` and starts `d`, told net1's pool, where the state
+still is (net1 cannot reverse `a` before it has dropped `b` and `d`) -/
+example : Event.start "net2" "3" "3a1" [("vm1", ":/pool/shared net1:/pool/swarm")] 1 ∈ (resume exRmSym exRmSym_2 1 exNoOut 100).2 ∧
+    ("vm1", "a") ∈ storeGet (resume exRmSym exRmSym_2 1 exNoOut 100).1.store "net1" := by
+  decide +kernel
+
+example := start_has_states_removal_symmetric_partial exRmSym exRmSym_hyps.1 exRmSym_hyps.2.1 exRmSym_hyps.2.2.1
+  exRmSym_hyps.2.2.2.1 exRmSym_hyps.2.2.2.2.1 exRmSym_hyps.2.2.2.2.2.1 (by decide : InitShared ([] : Store))
+  (runSched_reachS exRmSym 4 [] [] 100 (by decide) [(0, exNoOut), (0, exPass)] (by decide +kernel) _ ReachS.init)
+  1 exNoOut 100
+
+set_option maxRecDepth 100000 in
+/-- Why `RemovableSingle` resp. `SymCopies` is needed — the stale location.  `exRmStale`: two workers of one scope, the
+class `a` (sets `vm1/a`, removal policy `fi`) has a copy for each, the dependant `b` is parsed for net2 only; the graph is
+well-formed in the sense of C05, there are no retries, and every other hypothesis of the two theorems holds.  net1 runs
+`a` (PASS: the state is in net1's pool), finds its copy without dependants, is the only involved worker (net2 has not
+picked `a` yet) and removes the state.  net2 then comes to its copy of `a`: the class counts as finished, so **no scan**
+takes place and the rerun rule (`max_tries = 1`) says no; net2 skips `a` and starts `b`, told the shared pool and net1's
+pool — the state is in neither, nor in net2's own pool, and the only result of the producing class is the PASS: every
+disjunct of the theorems fails.  (The argument "a late worker finds the state missing in its own scan and re-runs the
+producer" is not true of `default_run_decision`: the scan is skipped as soon as anybody has finished the class.) -/
+theorem removed_state_stale_location :
+    Clean.WellFormed exRmStale 3 ∧ Clean.OneScope exRmStale ∧ SemHypR exRmStale ∧ MaxTriesOne exRmStale ∧
+    ¬ RemovableSingle exRmStale ∧ ¬ SymCopies exRmStale ∧
+    ReachS exRmStale 3 [] [] exRmStale_2 ∧
+    Event.door "net1" "unset" [("vm1", "a")] ["own"] true ∈
+      (resume exRmStale (runSched exRmStale 100 (initState exRmStale 3 [] []) [(0, exNoOut)]) 0 exPass 100).2 ∧
+    Event.start "net2" "1" "2a1" [("vm1", ":/pool/shared net1:/pool/swarm")] 1 ∈ (resume exRmStale exRmStale_2 1 exNoOut 100).2 ∧
+    ("vm1", "a") ∉ storeGet (resume exRmStale exRmStale_2 1 exNoOut 100).1.store "net2" ∧
+    ("vm1", "a") ∉ storeGet (resume exRmStale exRmStale_2 1 exNoOut 100).1.store "shared" ∧
+    ("vm1", "a") ∉ storeGet (resume exRmStale exRmStale_2 1 exNoOut 100).1.store "net1" ∧
+    (sharedResults exRmStale (resume exRmStale exRmStale_2 1 exNoOut 100).1 1).all (fun r => r.status == "PASS") = true :=
+  ⟨by decide +kernel, by decide +kernel,
+    ⟨by decide +kernel, by decide +kernel, by decide +kernel, by decide +kernel, by decide +kernel, by decide +kernel,
+      by decide +kernel⟩,
+    by decide +kernel, by decide +kernel, by decide +kernel,
+    runSched_reachS exRmStale 3 [] [] 100 (by decide) _ (by decide +kernel) _ ReachS.init,
+    by decide +kernel⟩
+
+set_option maxRecDepth 100000 in
+/-- Why `MaxTriesOne` is needed in `start_has_states_removal_symmetric_partial` (which has no hypothesis on the scopes).
+`exRmRetry`: the symmetric graph with the two workers in DIFFERENT swarms, `d` with `max_tries = 3` and
+`rerun_status = fail`; every other hypothesis holds.  `c1.net1` runs `a` (PASS) and `b`; `c2.net2` skips `a` and starts
+`d` (state in `c1.net1`'s pool).  `c1.net1` finishes `b`, comes to its copy of `d`: the peer's placeholder `UNKNOWN` is
+not in the rerun set, so the run decision is negative although `d` has not been decided yet; it drops `d`, its copy of
+`a` is cleanup-ready, the clean decision waits for its own swarm only (the known cross-swarm finding of C05) and the state
+is removed.  Then `d` FAILS on `c2.net2`: now every status is in the rerun set, two tries are left, and `c2.net2` starts `d`
+again (`3a1r1`), told `c1.net1`'s pool — where the state no longer is. -/
+theorem retries_cross_swarm_stale_restart :
+    Clean.WellFormed exRmRetry 4 ∧ SemHypR exRmRetry ∧ SymCopies exRmRetry ∧ ¬ MaxTriesOne exRmRetry ∧
+    ¬ Clean.OneScope exRmRetry ∧
+    ReachS exRmRetry 4 [] [] exRmRetry_4 ∧
+    Event.start "c2.net2" "3" "3a1r1" [("vm1", ":/pool/shared c1.net1:/pool/swarm")] 1 ∈ (resume exRmRetry exRmRetry_4 1 exFail 100).2 ∧
+    ("vm1", "a") ∉ storeGet (resume exRmRetry exRmRetry_4 1 exFail 100).1.store "c2.net2" ∧
+    ("vm1", "a") ∉ storeGet (resume exRmRetry exRmRetry_4 1 exFail 100).1.store "shared" ∧
+    ("vm1", "a") ∉ storeGet (resume exRmRetry exRmRetry_4 1 exFail 100).1.store "c1.net1" ∧
+    (sharedResults exRmRetry (resume exRmRetry exRmRetry_4 1 exFail 100).1 1).all (fun r => r.status == "PASS") = true :=
+  ⟨by decide +kernel,
+    ⟨by decide +kernel, by decide +kernel, by decide +kernel, by decide +kernel, by decide +kernel, by decide +kernel,
+      by decide +kernel⟩,
+    by decide +kernel, by decide +kernel, by decide +kernel,
+    runSched_reachS exRmRetry 4 [] [] 100 (by decide) _ (by decide +kernel) _ ReachS.init,
     by decide +kernel⟩
 
 end I2N.Props.C01
